@@ -223,6 +223,25 @@ PROPS = {
             fuzz("total", "FuzzC15", 120),
         ],
     ),
+    "C17": dict(
+        technique="PBT with a word classifier written from the statement: generated command statements, logging handlers plus decoy handlers under every keyword and under 'stop'; exhaustive word table",
+        level_text="Command statements <<name w ...>> over plain, keyword-prefixed (iffy, settings, jumpy, callme, declared, enumx, casey, localx, stopper, ifx, setup) and "
+                   "generated names, with 0-5 arguments from identifier-like and multi-byte words, true/false, decimal literals, near misses (True, nan, inf, Infinity, "
+                   "1e5, 0x10, 0x1p4, +5, 1_0, -, --x, keywords as words), {expressions} of each type, and 0-2 extra blanks at every position, are run with a logging "
+                   "handler under the name and decoy handlers under stop/if/set/jump/call/... . The handler must be invoked exactly once with exactly the typed values "
+                   "in order and the dialogue must continue after the command; <<stop ...>> ends the dialogue without any dispatch; an unregistered name is an "
+                   "error without any dispatch. Exhaustive: every pooled word as only/first/last argument of every pooled name. Search, not proof.",
+        level_note="Trusts the classifier (classifyCommandWord: true/false, ^-?digits(.digits)?$ numbers, everything else a string). Not generated because the statement is "
+                   "silent: '5.' and '.5', tabs as separators, words containing '>' or '{', expressions glued to words. Names starting with else/endif/endenum are a "
+                   "known finding and excluded by construction (replay/C17/name-starting-with-*.json).",
+        rule="command statements from name, word and blank generators; non-trivial = at least two arguments of at least two types, or a keyword-prefixed name; "
+             "distinct = distinct serialised cases.",
+        assumptions=["handlers complete immediately (pending commands are C10's business)"],
+        subs=[
+            rapid("arguments", "TestC17Arguments", 10000, 100000),
+            enum("word-table", "TestC17WordTable"),
+        ],
+    ),
     "C20": dict(
         technique="model-based stateful PBT (slice model) + exhaustive small-scope enumeration; invariant over generated token streams; native fuzzing",
         level_text="Generated and exhaustively enumerated operation histories against a slice model (every enqueue/dequeue word up to "
